@@ -595,6 +595,20 @@ func c04Scenarios(tier string) []*Scenario {
 			Check: chk, NoTick: true, FailOK: true, Bound: heavyBound(tier),
 		})
 	}
+	// a cancel acknowledged while a shutdown is in progress (graceful: the API keeps serving until Shutdown returns) is
+	// a cancel like any other: the shutdown scenarios of C11 with a racing cancel, judged by C04's monitor
+	for _, sc := range c11Scenarios(tier) {
+		if !strings.HasSuffix(sc.Name, "/cancel-running") && !strings.HasSuffix(sc.Name, "/cancel-waiting") {
+			continue
+		}
+		if strings.Contains(sc.Name, "2running") || strings.Contains(sc.Name, "delayed-due") {
+			continue // the heavy ones stay with C11
+		}
+		c := *sc
+		c.Name = "cancel-during-" + sc.Name
+		c.Check = func(w *World, x *Exec) []Violation { return monC04(buildFacts(w.Log, w.dump())) }
+		scs = append(scs, &c)
+	}
 	cfgChain := PipeCfg{Conc: 1, QL: -1, Graph: graphChain}
 	scs = append(scs, &Scenario{
 		Name: "cancel-twice/chain",
@@ -733,6 +747,8 @@ func c06List(mk func(name, desc string, cfg PipeCfg, prefix []XEvent, acc int, d
 	return []*Scenario{
 		mk("completion-vs-schedule/conc1", "job 1 runs, jobs 2 and 3 wait; job 1 completes while a new request arrives", one, []XEvent{S, S, S}, 3, []Op{{Kind: "S", Pipeline: "p"}}),
 		mk("completion-vs-schedule/conc2", "jobs 1,2 run, jobs 3,4 wait; completions race with a new request", two, []XEvent{S, S, S, S}, 4, []Op{{Kind: "S", Pipeline: "p"}}),
+		mk("last-completion-vs-two-requests/conc1", "job 1 is the only job and runs; a client sends two requests, one after the other, while job 1 completes", one, []XEvent{S}, 1, []Op{{Kind: "S", Pipeline: "p"}, {Kind: "S", Pipeline: "p"}}),
+		mk("completions-vs-two-requests/conc2", "jobs 1,2 run, nothing waits; a client sends two requests, one after the other, while they complete", two, []XEvent{S, S}, 2, []Op{{Kind: "S", Pipeline: "p"}, {Kind: "S", Pipeline: "p"}}),
 		mk("completion-vs-cancel/conc1", "job 1 runs, jobs 2,3,4 wait; cancel of job 2 races with the completion of job 1", one, []XEvent{S, S, S, S}, 4, []Op{{Kind: "C", Job: 2}}),
 		mk("cancel-of-running-vs-schedule/conc1", "job 1 runs, jobs 2,3 wait; job 1 is cancelled while a new request arrives", one, []XEvent{S, S, S}, 3, []Op{{Kind: "C", Job: 1}}, []Op{{Kind: "S", Pipeline: "p"}}),
 		mk("failure-of-running-vs-schedule/conc1", "job 1 runs two parallel tasks (fail-fast), job 2 waits; a task fails and, once the other task has been told to stop, a new request arrives", PipeCfg{Conc: 1, QL: -1, Graph: graphPar}, []XEvent{S, S}, 2, []Op{{Kind: "S", Pipeline: "p", WaitEvent: EvCancelCalled, WaitEventJob: 1}}),
